@@ -5,9 +5,11 @@ import RaftWal.Proofs.FaultDefs
 /-!
   Driver/Fault.lean — line protocol for Model/Fault.lean (suite `faultm`).
     case <id>                                   a fresh directory, Open
-    f <k|-> <nothing|garbage|whole> store <first> <seal> e1 e2…
-    f <k|-> <wf> del <min> <max>
-    f <k|-> <wf> setu <k> <v>                   one call whose k-th I/O action fails (`-`: none does)
+    f <plan> store <first> <seal> e1 e2…
+    f <plan> del <min> <max>
+    f <plan> setu <k> <v>                       one call under a fault plan: `-` (no fault) or one letter per I/O action the
+                                                call gets to: `.` succeeds, `x` fails, for a pwrite `n`/`g`/`w` = fails with
+                                                nothing / part / all of the batch in the file
                                                 -> ok|err  <first last n hash of what readers see>
     frestart                                    clean restart -> summary of the recovered log | err
 -/
@@ -24,7 +26,9 @@ def logSummaryOf (l : List (Nat × Entry)) : String :=
   let last := match l.getLast? with | some p => p.1 | none => 0
   s!"{first} {last} {l.length} {h}"
 
-def wfOf (s : String) : WriteFail := if s == "whole" then .whole else if s == "garbage" then .garbage else .nothing
+def planOf (s : String) : Plan :=
+  if s == "-" then [] else
+  s.toList.map (fun c => if c == '.' then none else if c == 'w' then some .whole else if c == 'g' then some .garbage else some .nothing)
 
 def answer (p : Proc) (ok : Bool) : String :=
   s!"{if ok then "ok" else "err"} {logSummaryOf (view p)}"
@@ -39,16 +43,15 @@ def faultLine (st : FaultSt) (line : String) : FaultSt × String :=
     | some p => match restart p with
       | none => ({ p := none }, "err")
       | some p' => ({ p := some p' }, logSummaryOf (view p'))
-  | "f" :: ks :: wfs :: rest =>
+  | "f" :: pls :: rest =>
     match st.p with
     | none => (st, "err nowal")
     | some p =>
-      let k : Option Nat := if ks == "-" then none else some (nat! ks)
-      let wf := wfOf wfs
+      let pl := planOf pls
       let l := view p
       let first := match l.head? with | some q => q.1 | none => 0
       let last := match l.getLast? with | some q => q.1 | none => 0
-      let go := fun (op : Op) => let (p', ok) := Fault.runOp p op k wf; (({ p := some p' } : FaultSt), answer p' ok)
+      let go := fun (op : Op) => let (p', ok) := Fault.runOp p op pl; (({ p := some p' } : FaultSt), answer p' ok)
       match rest with
       | "store" :: fi :: sl :: es =>
         let fi := nat! fi
